@@ -33,7 +33,7 @@ def load_findings():
         with open(FINDINGS) as f:
             for ln in f:
                 ln = ln.strip()
-                if ln and not ln.startswith("#"):
+                if ln.startswith("{"):
                     out.append(json.loads(ln))
     return out
 
